@@ -3,6 +3,7 @@
 (* scheduler is a behaviour of PidAlloc (one spec action per recorded event, logged values     *)
 (* bound to the spec's variables), and C16's invariants hold in every state of it.             *)
 EXTENDS PidAlloc, Json, IOUtils, TLCExt
+CONSTANT Observed     \* TRUE: nothing but the calls and what they returned is bound (the weakest reading of a trace: the invariants then speak about the observed results only)
 CONSTANT StaleReads   \* TRUE: the named deviation "a thread may work with a value of the counters that is not the current one" (values taken from the log)
 Rec == ndJsonDeserialize(IOEnv.TRACE)
 VARIABLE l
@@ -36,8 +37,15 @@ TBlocked == IsEvent("blocked") /\ pc[T] = "probe" /\ (LockEnforced => lock \noti
 TRefCall == IsEvent("ref_call") /\ UNCHANGED vars
 TRefWord == IsEvent("ref_word") /\ RefWord(T) /\ ctr = Rec[l].w
 TRefReturn == IsEvent("ref_return") /\ RefReturn(T)
-TraceNext == Reset \/ ((TCall \/ TLocked \/ TLoadId \/ TLoadSer \/ TStoreOne \/ TFetchAdd \/ TStoreNext \/ TReturn \/ TBlocked
+\* observed level: a call makes the thread busy, a return appends what was returned; every other event is accepted as it is
+OCall == IsEvent("call") /\ pc' = [pc EXCEPT ![T] = "probe"] /\ UNCHANGED <<nextId, nextSerial, creation, lock, lid, lser, left, issued, rvars>>
+OReturn == IsEvent("return") /\ pc' = [pc EXCEPT ![T] = "idle"] /\ issued' = Append(issued, <<Rec[l].id, Rec[l].serial, Rec[l].creation>>)
+           /\ UNCHANGED <<nextId, nextSerial, creation, lock, lid, lser, left, rvars>>
+OOther == l <= Len(Rec) /\ Rec[l].ev \notin {"reset", "call", "return"} /\ l' = l + 1 /\ UNCHANGED vars
+ObservedNext == Reset \/ ((OCall \/ OReturn \/ OOther) /\ UNCHANGED origin)
+StrictNext == Reset \/ ((TCall \/ TLocked \/ TLoadId \/ TLoadSer \/ TStoreOne \/ TFetchAdd \/ TStoreNext \/ TReturn \/ TBlocked
                          \/ TRefCall \/ TRefWord \/ TRefReturn) /\ UNCHANGED origin)
+TraceNext == IF Observed THEN ObservedNext ELSE StrictNext
 TraceSpec == TraceInit /\ [][TraceNext]_tvars
 TraceAccepted == LET d == TLCGet("stats").diameter IN
                  IF d - 1 = Len(Rec) THEN TRUE
